@@ -89,6 +89,35 @@ func Pool() []PoolEntry {
 		for _, n := range oddNames {
 			pool = append(pool, PoolEntry{n, stringutil.HashMailboxName(n)})
 		}
+		// HASH NEIGHBOURHOOD (indexes 20..22): three names below ONE first-level (3 hex) directory that no other
+		// pool name uses, with three different second-level (6 hex) directories; found by hashing n<i>.
+		for _, p := range pool {
+			used[p.Hash[:3]] = true
+		}
+		by3 := map[string][]string{}
+		for i := 0; i < 200000; i++ {
+			n := "n" + strconv.Itoa(i)
+			h := stringutil.HashMailboxName(n)
+			if used[h[:3]] {
+				continue
+			}
+			dup := false
+			for _, o := range by3[h[:3]] {
+				if stringutil.HashMailboxName(o)[:6] == h[:6] {
+					dup = true
+				}
+			}
+			if dup {
+				continue
+			}
+			by3[h[:3]] = append(by3[h[:3]], n)
+			if len(by3[h[:3]]) == 3 {
+				for _, o := range by3[h[:3]] {
+					pool = append(pool, PoolEntry{o, stringutil.HashMailboxName(o)})
+				}
+				break
+			}
+		}
 	}
 	return pool
 }
